@@ -797,6 +797,11 @@ def c04_scripts(ctx):
                     reqs[i].target = b"h%d.example:443" % i
                     rq[i] = b"CONNECT h%d.example:443 HTTP/1.1\r\nHost: h%d.example:443\r\n\r\n" % (i, i)
                     rs[i] = b"HTTP/1.1 %s\r\nX-Id: id%d\r\nContent-Length: 0\r\n\r\n" % (rng.choice((b"403 Forbidden", b"407 Auth", b"500 Err")), i)
+        # interim 100 responses in front of some final responses (same chunk when the message is delivered whole): the transaction must
+        # still get ITS final response, and the next one the next
+        for i in range(N):
+            if rng.random() < 0.25 and not (has_connect and reqs[i].method == b"CONNECT"):
+                rs[i] = rng.choice((b"HTTP/1.1 100 Continue\r\n\r\n", b"HTTP/1.1 100 Continue\r\nX-I: 1\r\n\r\n")) * rng.choice((1, 1, 2)) + rs[i]
         # pieces per message, then a legal merge: response i only after the whole of request i
         rpieces = [traffic.chunkings(x, rng, rng.choice(("whole", "whole", "rand"))) for x in rq]
         spieces = [traffic.chunkings(x, rng, rng.choice(("whole", "whole", "rand"))) for x in rs]
